@@ -82,7 +82,7 @@ def _kani_cmd(harness, slot, playback=False, extra=()):
 
 
 CHECK_RE = re.compile(
-    r"Check (\d+): (\S+)\n\s+- Status: (\w+)\n\s+- Description: \"((?:[^\"\\]|\\.)*)\"\n\s+- Location: ([^\n]*)"
+    r"Check (\d+): ([^\n]+)\n\s+- Status: (\w+)\n\s+- Description: \"((?:[^\"\\]|\\.)*)\"\n\s+- Location: ([^\n]*)"
 )
 
 
